@@ -10,9 +10,10 @@ git -C /repo worktree add -q --detach $WT HEAD >>$LOG 2>&1 || exit 2
 cleanup(){ git -C /repo worktree remove --force $WT >/dev/null 2>&1; rm -rf $WT; }
 trap cleanup EXIT
 STD=${SEED_STD:-gnu++20}
-g++ -std=$STD -I$WT/include $D/demo.cpp -o $WT/demo_clean >>$LOG 2>&1 && (cd $WT && timeout 120 ./demo_clean >>$LOG 2>&1; echo "DEMO_CLEAN_RC=$?" >>$LOG)
+LIBS=""; grep -q "boost/serialization\|boost/archive" $D/demo.cpp && LIBS="-lboost_serialization"
+g++ -std=$STD -I$WT/include $D/demo.cpp -o $WT/demo_clean $LIBS >>$LOG 2>&1 && (cd $WT && timeout 120 ./demo_clean >>$LOG 2>&1; echo "DEMO_CLEAN_RC=$?" >>$LOG)
 git -C $WT apply $D/patch.diff >>$LOG 2>&1 || { echo "PATCH_APPLY_FAILED" >>$LOG; exit 1; }
-g++ -std=$STD -I$WT/include $D/demo.cpp -o $WT/demo_mut >>$LOG 2>&1 && (cd $WT && timeout 120 ./demo_mut >>$LOG 2>&1; echo "DEMO_MUT_RC=$?" >>$LOG)
+g++ -std=$STD -I$WT/include $D/demo.cpp -o $WT/demo_mut $LIBS >>$LOG 2>&1 && (cd $WT && timeout 120 ./demo_mut >>$LOG 2>&1; echo "DEMO_MUT_RC=$?" >>$LOG)
 if [ "${SKIP_SUITE:-0}" != 1 ]; then
 cmake -G Ninja -S $WT -B $WT/_build -DCMAKE_BUILD_TYPE=Release -DCMAKE_CXX_FLAGS="-Wno-error -O0" -DBUILD_TESTING=ON >/dev/null 2>>$LOG
 cmake --build $WT/_build --target tests -j${JOBS:-10} >$WT/build.log 2>&1; echo "BUILD_RC=$?" >>$LOG
